@@ -136,6 +136,21 @@ def _write_once(name, obj):
 def materialise(case):
     """Write workflow + config files for ``case``; return the config path."""
     wf_files = {}
+    if case.get("fixed_paths"):
+        # the files of this case live under FIXED names that are rewritten
+        # for every simulation (a user editing a workflow file and running
+        # again in the same session): what topsim remembers about a path
+        # must not outlive the file's content
+        for key, wf in case["wfs"].items():
+            name = "wf_fixed_%s.json" % key
+            with open(os.path.join(scratch_dir(), name), "w") as f:
+                json.dump(workflow_json(wf), f)
+            wf_files[key] = name
+        cj = config_json(case["cfg"], wf_files)
+        path = os.path.join(scratch_dir(), "cfg_fixed.json")
+        with open(path, "w") as f:
+            json.dump(cj, f)
+        return path
     for key, wf in case["wfs"].items():
         name = "wf_%s.json" % _digest(wf)
         _write_once(name, workflow_json(wf))
